@@ -986,7 +986,9 @@ func relockList() []scen {
 	var list []scen
 	for _, L := range []time.Duration{400 * time.Millisecond, 600 * time.Millisecond} {
 		d := 3 * L / 20
-		for _, ph := range []time.Duration{d / 3, d / 8, 2 * d / 3} {
+		// re-lock within the answer delay d (the left-over attempt of the old tenure is still at the storage when the
+		// new tenure's first renewal is due) and later than d (it has been answered by then)
+		for _, ph := range []time.Duration{d / 3, d / 8, 2 * d / 3, 3 * d / 2, 5 * d / 2} {
 			list = append(list, scen{Kind: "S9", L: L, K: 3, SlowAfter: d, Phase: ph})
 		}
 	}
